@@ -365,14 +365,18 @@ class QsSim:
         self.counters[key] = self.counters.get(key, 0) + n
 
     # ---- server ----------------------------------------------------------------
-    def _start_server(self):
+    def _start_server(self, bind_fails=False):
         """Runs the real qserve.Main.run(): its Handler class, its timer loops and its
         `finally: savedb()`.  The only thing replaced is rpcserver.Server's constructor and
-        run_forever (which bind and serve a TCP socket); handle_client is the real one."""
+        run_forever (which bind and serve a TCP socket); handle_client is the real one.
+        bind_fails: a start attempt that dies because the port is still taken (the state has been
+        loaded by then); nothing is served and nothing of the simulator's view changes."""
         sim = self
 
         class SimServer(_REAL_SERVER[0]):
             def __init__(fs, port=8080, host="", get_request_handler=None, secret=None, is_allowed=None):
+                if bind_fails:
+                    raise OSError(98, "Address already in use (injected)")
                 fs.port = port
                 fs.host = host
                 fs.secret = secret
@@ -414,6 +418,14 @@ class QsSim:
                 pass
 
         rpcserver.Server = SimServer
+        if bind_fails:
+            main = qserve.Main(14311, "sim", self.data_dir, set())  # real loaddb()
+            g = gevent.spawn(main.run)
+            gevent.idle()
+            if not g.dead:
+                g.kill(block=True)
+            self.hub_errors = [e for e in self.hub_errors if "Address already in use" not in e[1]]
+            return
         self.handlers = {}
         if self.backdoor:
             # deployment knob of qserve: a gevent backdoor next to the RPC port.  The real
@@ -671,7 +683,7 @@ class QsSim:
             self.stopping = False
         self.sleepers = []
 
-    def restart(self, downtime=0.0):
+    def restart(self, downtime=0.0, failed_attempts=0):
         """Stop and start the server process: Main.run's own `finally: savedb()` writes the
         pickle, the process exits (all client greenlets vanish with it), `downtime` seconds
         pass with no server at all, then a new Main loads the pickle."""
@@ -687,6 +699,9 @@ class QsSim:
         self._notify(self.observer.on_restart, self.clock.time())
         self.clock.mono += PHASE  # the new server's timer phase differs from every earlier request phase
         try:
+            for _ in range(int(failed_attempts or 0)):
+                self._start_server(bind_fails=True)
+                self.clock.mono += 1.0
             self._start_server()
         except (HarnessError, Exception) as e:  # noqa: BLE001
             # the queue server does not come up from the state it saved itself
